@@ -145,6 +145,38 @@ def register(cat):
     for kind in ("T", "S", "K", "TT"):
         bad(kind + ".ttv_count", kind, gen_ttv_count, lambda eng, ops, st: ops[0].ttv(list(ops[1:])), lambda ops, st: len(ops) - 1 != ops[0].ndims)
 
+    def gen_ttv_count_dims(c, r):
+        # explicit modes, and a list that has neither one vector per listed mode nor one per mode of the tensor
+        sh = shp(c.obj(r))
+        n = len(sh)
+        if n < 3:
+            return None
+        m = c.g.randint(2, n - 1)  # length of the list
+        p = c.g.randint(1, m - 1)  # number of listed modes (all below m, so that "vector of mode d" exists in the list)
+        dims = sorted(c.g.sample(range(m), p))
+        if c.g.random() < 0.3:
+            c.g.shuffle(dims)
+        return {"operands": [r] + [c.fresh(rand_array(c.g, (sh[i],))) for i in range(m)], "dims": dims}
+
+    def bad_count_dims(ops, st):
+        return len(ops) - 1 not in (len(st["dims"]), ops[0].ndims)
+
+    for kind in ("T", "S", "K", "TT", "SUM"):
+        bad(kind + ".ttv_count_between", kind, gen_ttv_count_dims, lambda eng, ops, st: ops[0].ttv(list(ops[1:]), np.array(st["dims"])), bad_count_dims)
+
+    def gen_ttm_count_dims(c, r):
+        sh = shp(c.obj(r))
+        n = len(sh)
+        if n < 3:
+            return None
+        m = c.g.randint(2, n - 1)
+        p = c.g.randint(1, m - 1)
+        dims = sorted(c.g.sample(range(m), p))
+        return {"operands": [r] + [c.fresh(np.asfortranarray(rand_array(c.g, (2, sh[i])))) for i in range(m)], "dims": dims}
+
+    for kind in ("T", "S", "TT"):
+        bad(kind + ".ttm_count_between", kind, gen_ttm_count_dims, lambda eng, ops, st: ops[0].ttm(list(ops[1:]), np.array(st["dims"])), bad_count_dims)
+
     def gen_ttv_dims(c, r):
         sh = shp(c.obj(r))
         n = len(sh)
@@ -374,6 +406,33 @@ def register(cat):
         subs[0, d] = shape[d] + c.g.randint(0, 1)
         vals = np.array([[rnd(c.g)], [rnd(c.g)]])
         return {"operands": [c.fresh(subs), c.fresh(vals)], "shape": shape}
+
+    def gen_sptensor_ctor_width(c, r):
+        # subscripts (all in range) with another number of columns than the shape has modes, including the widths
+        # that numpy would broadcast against the shape (one column; a one-mode shape)
+        shape = list(c.g.choice(c.heap_families()))
+        kind = c.g.choice(["one_column", "one_mode_shape", "narrower", "wider"])
+        n = len(shape)
+        if kind == "one_mode_shape":
+            shape = [c.g.randint(2, 5)]
+            width = c.g.randint(2, 3)
+        elif kind == "one_column":
+            if n < 2:
+                return None
+            width = 1
+        elif kind == "narrower":
+            if n < 3:
+                return None
+            width = n - 1
+        else:
+            width = n + 1
+        lim = min(shape)
+        rows = sorted({tuple(c.g.randrange(lim) for _ in range(width)) for _ in range(c.g.randint(1, 3))})
+        subs = np.array(rows, dtype=int).reshape(len(rows), width)
+        vals = np.array([[rnd(c.g)] for _ in rows])
+        return {"operands": [c.fresh(subs), c.fresh(vals)], "shape": shape, "copy": c.g.choice([True, False])}
+
+    bad("sptensor_ctor_subs_width", None, gen_sptensor_ctor_width, lambda eng, ops, st: ttb.sptensor(ops[0], ops[1], tuple(st["shape"]), copy=st["copy"]), lambda ops, st: ops[0].ndim == 2 and ops[0].shape[1] != len(st["shape"]))
 
     bad("sptensor_ctor_subs_beyond_shape", None, gen_sptensor_ctor, lambda eng, ops, st: ttb.sptensor(ops[0], ops[1], tuple(st["shape"])), lambda ops, st: bool((ops[0] >= np.array(st["shape"])).any()))
 
